@@ -951,3 +951,42 @@ Proof.
     rewrite <- (class_samples_concat parts (map (erows e w s) batches) p sqq).
     rewrite Qcplus_0_l. reflexivity.
 Qed.
+
+(* ================================================================================ run-length encoded batches *)
+Lemma qz_add' (a b : Z) : qz (a + b) = qz a + qz b.
+Proof.
+  unfold qz. apply Qc_is_canon. unfold Qcplus, Q2Qc. cbn [this].
+  rewrite !Qred_correct, inject_Z_plus. reflexivity.
+Qed.
+
+Lemma qsum_map_repeat {A} (g : A -> Qc) x n : qsum (map g (repeat x n)) = qz (Z.of_nat n) * g x.
+Proof.
+  induction n as [|n IH].
+  - cbn. replace (qz 0) with 0 by (apply Qc_is_canon; reflexivity). ring.
+  - cbn [repeat map]. rewrite qsum_cons, IH. rewrite Nat2Z.inj_succ. unfold Z.succ. rewrite qz_add'.
+    replace (qz 1) with 1 by (apply Qc_is_canon; reflexivity). ring.
+Qed.
+
+Lemma wsum_expand (g : crow -> Qc) rl : qsum (map g (expand_rl rl)) = wsum g rl.
+Proof.
+  unfold expand_rl, wsum. induction rl as [|[r c] rl IH]; [reflexivity|].
+  cbn [flat_map map fst snd]. rewrite map_app, qsum_app, qsum_cons, IH, qsum_map_repeat. rewrite positive_nat_Z. reflexivity.
+Qed.
+
+(* ★ the weighted sums the boundary check computes on the runs are the class sums of the expanded batch *)
+Theorem rl_class_sum_thm e parts f w p s rl :
+  class_sum (pbatch_of e parts (expand_rl rl)) f w p s = rl_class_sum e parts f w p s rl.
+Proof.
+  unfold class_sum, rl_class_sum. cbn [pb_T pb_x pb_idx pbatch_of].
+  rewrite (qsum_seq_nth (fun r => if (lutz parts (nth w (snd r) 0%Z) =? Z.of_nat p)%Z then f (scale_q e (nth s (fst r) 0%Z)) else 0) (expand_rl rl)).
+  apply wsum_expand.
+Qed.
+
+Theorem rl_tclass_sum_thm e parts (g : list Z -> Qc) p rl :
+  tclass_sum (tbatch_of e parts (expand_rl rl)) p (fun t => g (fst (nth t (expand_rl rl) ([], []))))
+  = wsum (fun r => if (lutz parts (nth 0%nat (snd r) 0%Z) =? Z.of_nat p)%Z then g (fst r) else 0) rl.
+Proof.
+  unfold tclass_sum. cbn [tb_T tb_idx tbatch_of].
+  rewrite (qsum_seq_nth (fun r => if (lutz parts (nth 0%nat (snd r) 0%Z) =? Z.of_nat p)%Z then g (fst r) else 0) (expand_rl rl)).
+  apply wsum_expand.
+Qed.
